@@ -26,7 +26,7 @@ DEFAULT_FEATURES = {
     "refined": 4, "cls": 6, "list": 2, "annlist": 3, "tuple": 0, "union": 1, "dependent": 0, "flaky": 0,
     "weights": 0, "nested": 1, "standalone": 1, "unreachable": 1, "plain": 1, "infeasible": 0,
     "max_abstract": 3, "max_classes": 9, "max_fields": 3, "future_annotations": 0, "concrete_start": 0,
-    "base_in_list": 1, "finite": 0, "nested_generic": 0, "nested_list": 0, "deep_chain": 0, "self_ref": 0, "multi_dependent": 0, "abstract_weights": 0, "nested_start": 0,
+    "base_in_list": 1, "finite": 0, "nested_generic": 0, "nested_list": 0, "deep_chain": 0, "self_ref": 0, "multi_dependent": 0, "abstract_weights": 0, "nested_start": 0, "hollow": 0, "barren": 0,
 }
 
 
@@ -281,6 +281,16 @@ def gen_spec(H: Chooser, feat=None) -> dict:
         classes.append({"name": "U1", "kind": "data", "parent": "U0", "weight": None, "fields": [["f0", ["int"]]]})
         if H.draw(2):
             classes.append({"name": "U2", "kind": "data", "parent": None, "weight": None, "fields": [["f0", ["cls", "A0"]]]})
+    if feat.get("hollow") and H.draw(3) == 0:
+        # an abstract type without any production, mentioned by one production (which therefore has no finite derivation)
+        classes.append({"name": "H0", "kind": "abc", "parent": None, "weight": None, "fields": []})
+        classes.append({"name": f"C{n_conc}", "kind": "data", "parent": H.pick(abstracts), "weight": weight(),
+                        "fields": [["f0", ["cls", "H0"]]] if H.draw(2) else [["f0", ["bool"]], ["f1", ["cls", "H0"]]]})
+        n_conc += 1
+    if feat.get("barren") and H.draw(3) == 0:
+        # registered through the considered list only, not reachable from the start, and without a finite derivation
+        classes.append({"name": "B0", "kind": "abc", "parent": None, "weight": None, "fields": []})
+        classes.append({"name": "B1", "kind": "data", "parent": "B0", "weight": weight(), "fields": [["f0", ["cls", "B0"]]]})
     # precondition of weight normalisation: not every production of a type has weight zero
     for a in abstracts:
         kids = [c for c in classes if c["parent"] == a]
